@@ -29,6 +29,13 @@ FAMILIES = {
     "sublimits": dict(rdaily=0.7, rweekly=0.3, gdaily=0.5, tdaily=0.3, group=0.6, nres=(2, 3), dep=0.8, gap=[0, 0, 0, 30, 45],
                       efforts=[90, 150, 210, 45, 75, 330, 660, 840, 100], ntasks=(2, 5), dur=[("w", 2), ("w", 3)], G=[3600, 3600, 1800],
                       prio=0.5, team=0.15, rleave=0.0, vac=0.0, gleave=0.0),
+    # horizons that cross a year end, with vacations / holidays / leaves that straddle 31 December
+    "yearend": dict(starts=[1766361600, 1797811200, 1734912000], vac=0.3, straddle=0.7, gleave=0.4, rleave=0.4, efforts=[480, 960, 1920, 2400, 3000, 3600, 4800],
+                    dur=[("w", 4), ("w", 5)], ntasks=(1, 4), nres=(1, 2), dep=0.4, rdaily=0.2, rweekly=0.2),
+    # task trees in which several containers complete in the same pass (containers of dated milestones)
+    "mstrees": dict(milestone=0.6, pin=0.7, nest=0.9, depth=3, ntasks=(4, 10), dep=0.2, contdep=0.1, dupid=0.2),
+    # equal local ids in different containers, many 'precedes': edges between like-named tasks
+    "dupprec": dict(dupid=0.95, nest=0.85, depth=2, precedes=0.6, dep=0.8, rel=0.5, ntasks=(4, 9), gap=[0, 0, 60, 120], contdep=0.1),
     "deps": dict(dupid=0.4, nest=0.6, depth=3, dep=0.8, precedes=0.3, rel=0.5, contdep=0.5, contstart=0.3, onstart=0.25, pin=0.15,
                  gap=[0, 60, 120, 480, 1440, 90, 30], ntasks=(3, 9), hours=0.2),
     "coredeps": dict(dupid=0.3, nest=0.6, depth=3, dep=0.8, precedes=0.3, rel=0.5, contdep=0.5, contstart=0.3, onstart=0.25, pin=0.15,
@@ -97,6 +104,11 @@ def gen(rng, cfg):
     if rng.random() < cfg["vac"]:
         a = day0 + rng.randint(0, 9) * 86400
         ap["vac"].append((a, None if rng.random() < 0.5 else a + rng.randint(1, 3) * 86400))
+    if rng.random() < cfg.get("straddle", 0.0):
+        # (year-end starts are Mondays nine days before 31 December) a vacation that begins in the old year
+        # and ends in the new one
+        a = day0 + (7 + rng.randint(0, 2)) * 86400
+        ap["vac"].append((a, a + rng.randint(3, 6) * 86400))
     if rng.random() < cfg["gleave"]:
         a = day0 + rng.randint(0, 6) * 86400 + rng.choice([0, 11 * 3600, 13 * 3600])
         ap["gleaves"].append((a, None if a % 86400 == 0 and rng.random() < 0.5 else a + rng.choice([2 * 3600, 86400, 4 * 3600])))
